@@ -15,7 +15,7 @@ from vlib.common import *
 getcontext().prec = 60
 PI_D = Decimal("3.14159265358979323846264338327950288419716939937510582097494")
 C_D = Decimal(299792458)
-IMPORTS = ("From SpdVerif Require Import Base.Rx Model.SpectrumSetup Gen.Spectrum Model.Spectrum Proofs.C07_support Proofs.C07_tac.\n"
+IMPORTS = ("From SpdVerif Require Import Base.Rx Base.GridOps Gen.Grid Model.SpectrumSetup Gen.Spectrum Model.Spectrum Proofs.C07_support Proofs.C07_counts Proofs.C07_tac.\n"
            "Import ListNotations.\n")
 IN_WINDOW_TAGS = ("center", "center0", "rand_in")
 
@@ -308,6 +308,10 @@ def correspondence(ctx, obs, quick):
                 "case_norm", ("norm", o, key))
     for i, o in enumerate(x for x in obs if x["kind"] == "counts"):
         dw2 = f"({coq_hex(o['dws'])} * {coq_hex(o['dwi'])})"
+        if o.get("xr"):
+            # the cell area as the generated division widths give it, against the two widths the code returned
+            add(f"a{i}", f"Rabs (cell_area {coq_hex(o['xr'][0])} {coq_hex(o['xr'][1])} {int(o['nx'])} {coq_hex(o['yr'][0])} {coq_hex(o['yr'][1])} {int(o['ny'])} - {dw2}) <= 1e-14 * {dw2}",
+                "case_area", ("counts", o, "cell_area"))
         for key, lst in (("c", "jsi"), ("rs", "jsi_singles"), ("ri", "jsi_singles_idler")):
             if not all(finite(fh(v)) for v in o[lst]) or not finite(fh(o[key])):
                 continue
@@ -342,7 +346,7 @@ def correspondence(ctx, obs, quick):
 
 def run(ctx):
     binp = build_harness(ctx)
-    msgs, spans = regen(ctx, ["spectrum", "efficiencies"])
+    msgs, spans = regen(ctx, ["spectrum", "efficiencies", "pm_integrand", "grid"])
     keys = ("phasematch", "jsa", "utils", "math", "beam", "spdc::efficiencies")
     ctx.cov["translated_spans"] = {k: v for k, v in spans.items() if k.startswith(keys)}
     for m in msgs:
@@ -373,12 +377,12 @@ def run(ctx):
                        "boundary (= and ± 1 ulp, threshold off and on), at threshold = alpha and ± 1 ulp; normalisation at random "
                        "bandwidth/power/deff; (power, deff) scaled over six decades; distinct = distinct (setup, input bits)")
     ctx.cov["clauses"] = {
-        "intensities/rates proportional to power x deff^2": "proved (generated normalisation; raw amplitudes syntactically independent: frame scan) + Rust-vs-Rust 1e-12 over six decades",
+        "intensities/rates proportional to power x deff^2": "proved (generated normalisation; raw amplitudes syntactically independent: frame scan; rates = generated rendering of counts.rs with the generated correction factor and cell area dws*dwi) + Rust-vs-Rust 1e-12 over six decades; grids with unequal axis spacings",
         "efficiencies / normalised spectra / Schmidt / HOM independent of power, deff": "proved on the generated/hand models (SVD, HOM and two-source HOM sums as list models; two sources scaled independently) + Rust-vs-Rust",
         "envelope 1 at centre, 1/2 at +- half FWHM span": "proved (exact, and only there) + interval correspondence",
         "jsa_raw = envelope x phasematching": "proved + bitwise on Rust",
         "exact zero off support (box, threshold)": "proved, box proved equal to the property's (strictness included) + exact-zero comparison incl. 1-ulp boundary points",
-        "finite inside the transmission window": "proved_partial (normalisation defined and positive for positive indices); integrals' finiteness validated_only",
+        "finite inside the transmission window": "normalisations / envelope: proved for every built-in crystal, in-window wavelengths, T in [-50,200] C, every orientation and unit beam direction with the index oracles instantiated by the generated index_along over the generated crystal tables (C07_defined_builtin, no index hypothesis); finiteness of the two fibre-coupling integrals themselves validated_only",
     }
     return finish(ctx, assumptions=[
         "oracle fields of `setup` (refractive indices, Snell angles, fibre-coupling integrals, counts correction, optimum and swapped setups) do not depend on "
